@@ -7,18 +7,44 @@ import (
 	"fmt"
 	"hash/fnv"
 	"sort"
+	"time"
 
 	"github.com/golang/geo/s2"
 	"verifharness/internal/vkit"
 )
 
 type S struct {
-	c *vkit.Collector
+	hung bool
+	c    *vkit.Collector
 	g *G
 	t *T
 
 	emptyFindReported bool
 	cellTestsBroken   bool // ContainsCellID/IntersectsCellID seen wrong on a leaf: Difference may not terminate
+
+	cur interface{} // input of the case being evaluated (replay of a hang)
+}
+
+// guard runs one case; if the implementation does not come back (a loop that no longer
+// terminates) the case is reported as a violation and the run is cut short: the stuck goroutine
+// is abandoned, nothing else is evaluated.
+func (s *S) guard(phase string, f func()) bool {
+	if s.hung {
+		return false
+	}
+	done := make(chan struct{})
+	go func() {
+		defer close(done)
+		f()
+	}()
+	select {
+	case <-done:
+		return true
+	case <-time.After(20 * time.Second):
+		s.hung = true
+		s.c.Violate(phase+".hang", "the implementation did not return within 20 s on this input (non-terminating loop?)", s.cur)
+		return false
+	}
 }
 
 // T rations the correspondence cases per category.
@@ -189,6 +215,7 @@ func (s *S) union1(in []uint64, class string) []uint64 {
 	set := fromCells(in)
 	want := canonical(set)
 	rep := map[string]interface{}{"ids": hexs(in), "class": class}
+	s.cur = rep
 	u := toCU(in)
 	u.Normalize()
 	got := fromCU(u)
@@ -283,6 +310,7 @@ func (s *S) pair1(xraw, yraw []uint64, class string, fullProbes bool) {
 	x, y := canonical(sx), canonical(sy)
 	rep := map[string]interface{}{"x": hexs(x), "y": hexs(y), "class": class}
 	repRaw := map[string]interface{}{"x": hexs(xraw), "y": hexs(yraw), "class": class}
+	s.cur = repRaw
 	sI, sD, sD2, sU := sx.inter(sy), sx.minus(sy), sy.minus(sx), sx.union(sy)
 	c.Eval(keyOf("pair", x, y), len(x)+len(y) >= 2 && len(sI) > 0)
 
@@ -546,10 +574,11 @@ func (s *S) denorm1(in []uint64, class string) {
 			want = append(want, cellAt(p, size))
 		}
 	}
+	rep := map[string]interface{}{"x": hexs(x), "minLevel": minLevel, "levelMod": levelMod}
+	s.cur = rep
 	u := toCU(x)
 	u.Denormalize(minLevel, levelMod)
 	got := fromCU(u)
-	rep := map[string]interface{}{"x": hexs(x), "minLevel": minLevel, "levelMod": levelMod}
 	c.Class("denormalize:" + class)
 	c.Eval(keyOf(fmt.Sprintf("denorm%d/%d", minLevel, levelMod), x), len(got) != len(x))
 	if !fromCells(got).equal(fromCells(x)) {
@@ -678,8 +707,9 @@ func (s *S) range1() {
 	if b == e {
 		want = []uint64{}
 	}
-	got := fromCU(s2.CellUnionFromRange(s2.CellID(b), s2.CellID(e)))
 	rep := map[string]interface{}{"begin": fmt.Sprintf("0x%016x", b), "end": fmt.Sprintf("0x%016x", e)}
+	s.cur = rep
+	got := fromCU(s2.CellUnionFromRange(s2.CellID(b), s2.CellID(e)))
 	c.Eval(fmt.Sprintf("range:%x:%x", b, e), len(want) >= 2)
 	if !fromCells(got).equal(mkset([]iv{{b >> 1, e >> 1}})) {
 		c.Violate("CellUnion.FromRange", "CellUnionFromRange does not cover exactly [begin,end)", rep)
@@ -734,6 +764,7 @@ func (s *S) maxTile1() {
 		}
 	}
 	c.Class("maxtile:" + class)
+	s.cur = map[string]interface{}{"id": fmt.Sprintf("0x%016x", id), "limit": fmt.Sprintf("0x%016x", limit)}
 	got := uint64(s2.CellID(id).MaxTile(s2.CellID(limit)))
 	start := oLeafMin(id) >> 1
 	lim := oLeafMin(limit) >> 1
